@@ -172,7 +172,7 @@ class Settings:
     def plot_dimensions(self, new_dimensions: (float, float)):
         if not isinstance(new_dimensions, tuple) or len(new_dimensions) != 2:
             raise ValueError("The plot dimensions must be a tuple with two entries")
-        if any(not isinstance(num, (int, float)) or num <= 0 for num in new_dimensions):
+        if any(not isinstance(num, (int, float)) or not num > 0 for num in new_dimensions):
             raise ValueError("The dimensions of the plot must be numeric")
         self.__config[lit.PLOT_DIMENSIONS] = new_dimensions
 
